@@ -37,5 +37,5 @@ pub uninterp spec fn dflt_chain() -> Arc<ChainDescriptor>;
 // the two-string defaults for prefix and postfix operators are the same function (concatenate the two arguments in order)
 pub broadcast axiom fn axiom_unary_postfix_default() ensures #[trigger] dflt_postfix() == dflt_unary();
 // rule 22: the store (static OnceCell<Mutex<HashMap<DescriptorKey, Descriptor>>>) is seen through a map view of the handle
-pub struct DescriptorManager {}
+#[verifier::external_body] pub struct DescriptorManager { x: u8 }     // opaque: an empty struct would make every handle equal, and a view that is a function of the handle could then never change
 pub struct KV { pub kind: int, pub name: Seq<char> }
